@@ -1,6 +1,7 @@
 # C04 Netcode payloads: only authentic ones surface, each at most once (anti-replay) — structural clauses
 import re
 from sa.rules import *
+import rules.wave3 as W3
 import rules.shared as shared
 from rules.netcode_common import *
 from rules.oblcommon import obl_rule
@@ -160,4 +161,12 @@ def rules(t):
     out.append(r)
     out.append(shared.aad_rule(t, "C04.e", "packet"))
     out.append(shared.aead_open_rule(t, "C04.h"))
+    out.append(W3.key_distinct(t, "C04.j"))
+    rr_ = RuleResult("C04.k", "a sender never seals two packets with one sequence number: the receiver's replay window would refuse the second, genuine, packet (shared with C17.c2)", floor=1)
+    import rules.C17 as _SRC
+    for x_ in _SRC.rules(t):
+        if x_.id == "C17.c2":
+            rr_.sites += x_.sites
+            for v_ in x_.violations: rr_.bad(v_.key, v_.site, v_.msg)
+    out.append(rr_)
     return out
